@@ -102,6 +102,7 @@ static void g_case(uint64_t idx, void *ctx)
             libast_debug_level = 0; libast_set_silent(FALSE);
             libast_dprintf(NULL); libast_print_warning(NULL); libast_print_error(NULL);
             { spif_charptr_t keep_name = libast_program_name; libast_program_name = NULL; libast_dprintf("refused %d\n", 1); libast_program_name = keep_name; }     /* and one refused for want of a program name */
+            libast_set_program_name("a-client-name"); libast_dprintf("named %d\n", 1); libast_set_program_name("libast");      /* and the name set to a client's and back to the built-in one */
             fflush(NULL);
             dup2(keep, 2); close(keep); close(nul);
         }
@@ -144,6 +145,7 @@ static void g_case(uint64_t idx, void *ctx)
     else {
         if (p->gate != G_LIB && (r.bumps != 0) != want_eval) FAIL(site, "model:argument-evaluation", shape, "arguments/condition were %sevaluated (%d side effects), expected %s", r.bumps ? "" : "not ", r.bumps, want_eval ? "evaluation" : "none");
         if (check_out && (total > 0) != want_out) FAIL(site, want_out ? "model:no-output" : "model:unexpected-output", shape, "%ld bytes written to stderr, expected %s: %.120s", total, want_out ? "output" : "silence", err);
+        if (check_out && total > 0 && (p->fn == p_prim_warning || p->fn == p_prim_error) && strncmp(err, "libast:", 7)) FAIL(site, "model:program-name", shape, "the message does not start with the program name \"libast:\": %.80s", err);
         if (check_out && strstr(p->name, "100%") && strstr(err, "100%") && !strstr(err, "100%%")) FAIL(site, "model:diagnostic-garbled", shape, "the condition's text was used as a format: %.160s", err);
         if (!strncmp(p->name, "if (", 4) && r.elses != (p->fn == p_d_if_false ? 1 : 0)) FAIL(site, "model:control-flow", shape, "the else arm ran %d times with the condition %s", r.elses, p->fn == p_d_if_false ? "false" : "true");
         if (p->gate >= G_ASSERT_T && p->gate <= G_REQUIRE_RVAL_F) {
@@ -159,7 +161,7 @@ int main(int argc, char **argv)
     mc_init("C20", argc, argv);
     NP = 0; for (int i = 0; i < NPROBES; i++) if (!PROBES[i].thorough_only || mc_thorough()) NP = i + 1;
     mc_info("alphabet", "build DEBUG=%d (%s): %d probes (D_OPTIONS/OBJ/CONF/MEM/STRINGS/PARSE/NEVER, DPRINTF, DPRINTF1..9, ASSERT/ASSERT_RVAL/ASSERT_NOTREACHED_RVAL/REQUIRE/REQUIRE_RVAL true and false and on a condition whose text holds %%, the three output primitives%s) "
-            "x runtime levels {0..6, 9999} x silent {off, TRUE, 0x100} x {fresh process, after four refused output calls}", BUILD, mc_arg("build", "?"), NP, mc_thorough() ? ", four in-library statements" : "");
+            "x runtime levels {0..6, 9999} x silent {off, TRUE, 0x100} x {fresh process, after four refused output calls and the program name set to a client's and back}", BUILD, mc_arg("build", "?"), NP, mc_thorough() ? ", four in-library statements" : "");
     mc_e2_level("gate", BUILD, (uint64_t) NP * PER, g_case, g_desc, NULL);
     return mc_finish();
 }
